@@ -81,6 +81,7 @@ Definition f_append (l x sepv : value) : res :=
 
 Definition f_index (l x : value) : res :=
   match l with
+  | VArgs p => ROk (v_of_pos (position p x O))            (* searched like the list of its items *)
   | VList items _ _ => ROk (v_of_pos (position items x O))
   | VMap m =>
       match x with
